@@ -48,9 +48,13 @@ def _gains():
 
 def _strategy(tier):
     es = st.one_of(st.just(1.0), loguniform(-3, 3), loguniform(-3, 3))
+    # integer-valued gains handed over as an integer-dtype array
+    int_gains = st.lists(st.integers(1, 40), min_size=1, max_size=8)
     return fixed(
         part=st.just("wf"),
-        gains=_gains(),
+        gains=st.one_of(_gains(), _gains(), _gains(), _gains(), int_gains),
+        gdtype=st.sampled_from(["float64", "float64", "float64", "int64",
+                                "int32"]),
         Pt=loguniform(-3, 3),
         N0=loguniform(-3, 3),
         Es=es,
@@ -87,9 +91,32 @@ def check(case, ctx):
     Pt, N0, Es = float(case["Pt"]), float(case["N0"]), float(case["Es"])
     n = len(g)
     tags = dict(Es_is_one=(Es == 1.0), n=n)
-    p, mu = doWF(np.array(g), Pt, N0, Es)
+    # the caller's array: integer gains may come as an integer-dtype array
+    # (float32 arrays are not generated: the library then computes in single
+    # precision, which the float64 tolerances here do not describe)
+    gdtype = case.get("gdtype", "float64")
+    if gdtype.startswith("int") and not all(x == int(x) for x in g):
+        gdtype = "float64"
+    if gdtype == "float32" and not all(float(np.float32(x)) == x for x in g):
+        gdtype = "float64"
+    garr = np.array(g, dtype=gdtype)
+    ctx.label("gains_dtype=" + gdtype)
+    tags["gdtype"] = gdtype
+    p, mu = doWF(garr, Pt, N0, Es)
     p = np.asarray(p, dtype=float)
     mu = float(mu)
+    # ordinary use: the same gains array is used again (power sweep, a later
+    # comparison).  It still holds the gains, and the same call gives the
+    # same answer.
+    if not np.array_equal(garr, np.array(g, dtype=gdtype)):
+        raise Violation("gains_array_modified", "doWF changed the array of "
+                        "gains handed to it: %r -> %r" % (g, garr.tolist()),
+                        tags)
+    p_again, mu_again = doWF(garr, Pt, N0, Es)
+    if not (np.array_equal(np.asarray(p_again, dtype=float), p) and
+            float(mu_again) == mu):
+        raise Violation("second_call_differs", "a second identical call "
+                        "returned a different allocation", tags)
     if p.shape != (n,):
         raise Violation("shape", "allocation shape %r for %d gains" %
                         (p.shape, n), tags)
